@@ -100,9 +100,22 @@ def check_modes(run, repo):
         v = {}
         meta = {}
         for q in QUANT:
+            n_hz = len(I.underflow_hazards)
             r = getv(I, obj, 'get_' + q, avail)
             v[q], meta[q] = r[0], (r[1], r[2])
             run.fn('%s.get_%s' % (r[1].qual, q))
+            # a logarithm taken of a product over all modes whose factors are Boltzmann factors: with many stiff
+            # modes at low temperature (54 modes of hexane below 80 K, 12 modes of 4500 1/cm at 50 K - inside the
+            # range the property quantifies over) the product underflows to 0 before the logarithm is taken
+            for node, rel, factor in I.underflow_hazards[n_hz:]:
+                boltz = [a_ for a_ in factor.atoms() if D.kind.get(a_) == 'exp' and
+                         not D.d(D.arg[a_], 'T').iszero()]
+                hm = [m_ for m_ in repo.modules.values() if m_.relpath == rel]
+                run.check(not boltz, 'TYPE.underflow', '%s.get_%s' % (label, q), 'log of a product over modes',
+                          'np.log is applied to a product over all modes of factors %s that decay exponentially '
+                          'with theta/T: for species with many stiff modes at low temperature the product '
+                          'underflows and the logarithm is -inf although the quantity (a sum of logarithms) is '
+                          'finite' % show(factor, 120), hm[0] if hm else r[1].module, node)
         store[label] = (obj, v, meta)
         con = label
         # TWIN
